@@ -18,7 +18,7 @@ CASES = [
     'ref_no_type', 'ref_m2m_detached_sql', 'column_in_table_no_type', 'table_in_db_no_name',
     'item_in_enum_no_name', 'item_in_db_enum_no_name', 'column_in_table_no_name', 'index_in_table_no_subjects', 'enum_in_db_no_schema',
     'ref_mixed_same_fullname_table1', 'ref_mixed_same_fullname_dbml', 'ref_in_db_detached_sql', 'ref_in_db_detached_dbml',
-    'ref_composite_detached_trailing_sql', 'ref_composite_detached_trailing_dbml',
+    'ref_composite_detached_trailing_sql', 'ref_composite_detached_trailing_dbml', 'ref_no_col1', 'ref_no_col2', 'table_in_db_no_schema',
 ]
 
 
@@ -147,6 +147,16 @@ def refused(K=2):
             else:
                 t1.delete_column(1)        # ... or of the left side
             return ((lambda: r.sql) if case.endswith('sql') else (lambda: r.dbml)), ex.TableNotFoundError
+        if case in ('ref_no_col1', 'ref_no_col2'):
+            r = Reference('>', t1.columns[1], t2.columns[0], inline=a['p_inline'])
+            if case == 'ref_no_col1':
+                r.col1 = None
+            else:
+                r.col2 = None
+            return (lambda: r.sql), ex.AttributeMissingError
+        if case == 'table_in_db_no_schema':
+            t2.schema = None
+            return (lambda: db.sql), ex.AttributeMissingError if a['p_add'] else None
         if case == 'table_get_refs_detached':
             d = Table(nm, columns=[Column('id', 'int')])
             return (lambda: d.get_refs()), ex.UnknownDatabaseError
